@@ -105,6 +105,26 @@ pub fn generate(thorough: bool, seed: u64, out: &mut dyn Write) {
             writeln!(out, "{} {} {}", op, hex(&key), hex(&m)).unwrap();
         }
     }
+    // (2b) consecutive sessions (the run stage handles a shard's cases one after the other in one
+    // process) whose keys agree on part of the significant 8 bytes: same bytes 4..8 / same bytes
+    // 0..4 / same 7 of 8 bytes / equal except one bit — nothing of an earlier session's schedule
+    // may survive into the next one
+    let pairs = if thorough { 600 } else { 60 };
+    for i in 0..pairs {
+        let k1 = key_of(&mut rng, 8);
+        let mut k2 = k1.clone();
+        match i % 4 {
+            0 => k2[..4].copy_from_slice(&rng.bytes(4)),
+            1 => k2[4..].copy_from_slice(&rng.bytes(4)),
+            2 => { let j = rng.below(8) as usize; k2[j] = k2[j].wrapping_add(1 + rng.below(255) as u8); }
+            _ => { let j = rng.below(64) as usize; k2[j / 8] ^= 1 << (j % 8); }
+        }
+        let m = { let l = msg_len(&mut rng, false).max(8); msg_of(&mut rng, l) };
+        let op = ["enc", "rt", "dec"][i % 3];
+        writeln!(out, "{} {} {}", op, hex(&k1), hex(&m)).unwrap();
+        writeln!(out, "{} {} {}", op, hex(&k2), hex(&m)).unwrap();
+        writeln!(out, "{} {} {}", op, hex(&k1), hex(&m)).unwrap();
+    }
     // (3) only the first 8 key bytes count: one 8-byte key and many extensions, same message
     let groups = if thorough { 400 } else { 40 };
     for _ in 0..groups {
